@@ -1405,7 +1405,7 @@ def strat_reads(tier):
 
 SUBCHECKS = [
     Sub('builder-programs', check_program, strategy=strat_programs, classify=classify_program, nontrivial=nontrivial_program,
-        n=(4000, 150000), shards=(16, 32),
+        n=(4000, 100000), shards=(16, 32),
         note='programs of store operations placed relative to the remaining capacity; model verdict per step, limits and '
              'end_cell() after every step'),
     Sub('range-grid', check_range, enum=enum_range, classify=classify_range, nontrivial=nontrivial_range, shards=(8, 8),
@@ -1416,7 +1416,7 @@ SUBCHECKS = [
         note='every remaining length r in 0..1023 x 10 routes x typed content (quick: 1-2 shapes, thorough: 7): every consuming read on a fresh '
              'slice, largest in-bounds request and smallest over-read'),
     Sub('read-bounds', check_reads, strategy=strat_reads, classify=classify_reads, nontrivial=nontrivial_reads,
-        n=(3000, 100000), shards=(16, 32),
+        n=(3000, 60000), shards=(16, 32),
         note='sequences of typed reads on one slice (typed payloads, last one cut short) followed by requests relative to '
              'what remains'),
 ]
